@@ -51,6 +51,7 @@ def step (line : String) : String :=
             s!"{model}\tspec={spec}\tkf={kf}"
       | _, _ => "bad-op"
   | ["menc", kts, vts, vals] => ScaleMap.stepEnc kts vts vals
+  | ["mrt", kts, vts, vals] => ScaleMap.stepRt kts vts vals
   | ["order", tys] =>
     match parseTy tys with
     | some (.st fs) => "[" ++ ",".intercalate ((C11.fieldOrder (fs.map (·.2))).map toString) ++ "]"
